@@ -106,7 +106,7 @@ def run_link(pid: str, repo=None) -> dict:
         gm = tr.translate_spec(spec, repo)
     except tr.Untranslatable as e:
         return fail(e.function or "?", "translate",
-                    f"{spec['source']}:{e.lineno}: {e.function} is no longer inside the translated Python subset: {e.reason}",
+                    f"{next((f_.get('source') for f_ in spec['functions'] if f_['py'] == e.function and f_.get('source')), spec['source'])}:{e.lineno}: {e.function} is no longer inside the translated Python subset: {e.reason}",
                     source=getattr(e, "source", ""))
     except (SyntaxError, OSError) as e:
         return fail("?", "translate", f"cannot read/parse {spec['source']}: {e}")
@@ -159,7 +159,7 @@ def run_link(pid: str, repo=None) -> dict:
             cands = [f for f in gm.functions if lemma == "link_" + f.gen[4:] or lemma.startswith("link_" + f.gen[4:] + "_")]
             fn = max(cands, key=lambda f: len(f.gen)) if cands else None
         err = re.sub(r"\s+", " ", out[out.find("Error"):][:600]) if "Error" in out else out[-600:]
-        what = (f"link lemma {lemma or '?'} ({link_src.name}) no longer checks: the definition generated from {spec['source']}"
+        what = (f"link lemma {lemma or '?'} ({link_src.name}) no longer checks: the definition generated from {(fn.spec or {}).get('source', spec['source']) if fn else spec['source']}"
                 f"{(':%d-%d %s' % (fn.lineno, fn.end_lineno, fn.py)) if fn else ''} is not proved equal to the hand-written model any more"
                 + (" (TIMEOUT)" if rc == 124 else "") + f" — {err}")
         return fail(fn.py if fn else (lemma or "?"), "link-lemma", what, source=fn.source if fn else "", gallina=fn.text if fn else "", log=out)
@@ -176,10 +176,23 @@ def run_link(pid: str, repo=None) -> dict:
     return res
 
 
+def run_link_locked(pid: str, repo=None) -> dict:
+    """run_link under an exclusive lock on the generated-module directory (concurrent checks of one tree share it)"""
+    import fcntl
+
+    gen_dir().mkdir(parents=True, exist_ok=True)
+    with open(gen_dir().parent / ".lock", "w") as lk:
+        fcntl.flock(lk, fcntl.LOCK_EX)
+        try:
+            return run_link(pid, repo)
+        finally:
+            fcntl.flock(lk, fcntl.LOCK_UN)
+
+
 def check_link(ctx, pid: str):
     """Record the translation tie in ctx (notes / trusted base), or a 'proof' violation naming what no longer checks."""
     try:
-        res = run_link(pid)
+        res = run_link_locked(pid)
     except Exception as e:  # the tie must never take the check down with an infrastructure error of its own
         import traceback
 
@@ -222,7 +235,7 @@ if __name__ == "__main__":
         import os
 
         core.REPO = Path(sys.argv[2])
-    r = run_link(sys.argv[1].upper(), core.REPO)
+    r = run_link_locked(sys.argv[1].upper(), core.REPO)
     if r["ok"]:
         print(f"LINKED {len(r['functions'])} functions in {r['seconds']}s:", ", ".join(r["functions"]))
         sys.exit(0)
